@@ -56,8 +56,8 @@ def parseExt : String → Option Ext
 def vecFn (v : List Rat) : Nat → Q := let a := v.toArray; fun i => a.getD i 0
 def matFn (m : List (List Rat)) : Nat → Nat → Q := let a := toArr m; fun i j => (a.getD i #[]).getD j 0
 
-/-- forced products (same entries as `fwdMat`/`adjMat`/`tFwdMat`/`tAdjMat`, see `Props/C07.force_e`) -/
-def prod3 (X Y Z : LMat Q) : LMat Q := (X.mul (Y.mul Z).force).force
+/-- forced products (same entries as `fwdMat`/`adjMat`/`tFwdMat`/`tAdjMat`, see `Props/C07.force_e`, `mul3Forced_e`) -/
+def prod3 (X Y Z : LMat Q) : LMat Q := LMat.mul3Forced X Y Z
 
 def step : List String → String
   | ["geom", g] =>
